@@ -172,6 +172,38 @@ def exceptional_guards(rep, u):
     return n
 
 
+def jacobian_raw_compare(rep, u):
+    """R-JAC: Jacobian coordinates are equivalence-class representatives; an equality decision on a raw
+    X/Y/Z of a Jacobian operand (other than a test against zero) is wrong unless Z == 1.
+    In every function with a parameter of type ec_point_proj_p no bn_cmp / bn_is_equal takes
+    &param->x|y|z directly."""
+    n = 0
+    for fn in u.function_list:
+        if fn.relfile() != EC_H:
+            continue
+        proj = [i for i, p in enumerate(fn.params) if u.type(p["t"])["k"] == "ptr" and
+                u.type(u.type(p["t"])["to"]).get("rec") == "elliptic_curve_point_projective_s"]
+        if not proj:
+            continue
+        n += 1
+        bad = None
+        for pos, root, c, ps in fn.calls({"bn_cmp", "bn_is_equal", "bn_digits_cmp"}):
+            for a in c["args"]:
+                a0 = core.strip_casts(a)
+                if a0.get("k") == "un" and a0["op"] == "&":
+                    m = core.strip_casts(a0["e"])
+                    if m.get("k") == "mem" and m["f"] in ("x", "y", "z") and any(r_mpt.is_param(fn, m["b"], i) for i in proj):
+                        bad = (c, m)
+        desc = "no equality/order decision is taken on a raw coordinate of a Jacobian operand"
+        if bad:
+            rep.violated("R-JAC", fn, "raw-compare:%s" % key(bad[1]), desc,
+                         "%s() at line %s compares %s, which is only meaningful when Z == 1" % (bad[0]["fn"], bad[0]["ln"], key(bad[1])),
+                         bad[0]["ln"])
+        else:
+            rep.proved("R-JAC", fn, "no-raw-compare", desc)
+    return n
+
+
 def _first_local_is_zero(fn):
     """atom: the first bn_is_zero(&<local>) test in the function (difference of x coordinates)"""
     first = [None]
@@ -349,6 +381,7 @@ def run(rep, tier):
                 n_ts += b
                 n_arr += c
         g = exceptional_guards(rep, u)
+        jacobian_raw_compare(rep, u)
         if first:
             n_g = g
         first = False
@@ -378,3 +411,14 @@ def selftest():
             ts_bn.check_arrays(rep, fn)
     fixtures.expect(rep, ["fx_bad_uninit", "fx_bad_one_path", "fx_bad_elem_index", "fx_bad_point_field"],
                     ["fx_ok", "fx_ok_goto", "fx_ok_elem", "fx_ok_loop_range", "fx_ok_point"], "R-TS bn")
+    rep = driver.Report("fixture", "quick")
+    u.function_list = [f for f in u.function_list]
+    import types
+    saved = [(f, f.file) for f in u.function_list]
+    for f in u.function_list:
+        if f.name.startswith("fx_jac"):
+            f.file = core.REPO + "/" + EC_H
+    jacobian_raw_compare(rep, u)
+    for f, fl in saved:
+        f.file = fl
+    fixtures.expect(rep, ["fx_jac_bad"], ["fx_jac_ok"], "R-JAC")
